@@ -689,6 +689,7 @@ fn variant_replay(args: &Args) {
 
 fn runfile(args: &Args) {
     let (fmt, api, path) = (&args.extra[0], &args.extra[1], &args.extra[2]);
+    alloc::MARK_FD.store(2, std::sync::atomic::Ordering::Relaxed); // markers (A / F / H lines) go to stderr
     alloc::start_watchdog(std::env::var("C08_CPU_S").ok().and_then(|x| x.parse().ok()).unwrap_or(5), 600);
     let bytes = std::fs::read(path).expect("read");
     if fmt == "variant" {
@@ -820,7 +821,10 @@ fn probe(args: &Args) {
         let o = cmd.arg("--tier").arg(&args.tier).arg("--seed").arg(args.seed.to_string()).output().expect("run");
         let txt = String::from_utf8_lossy(&o.stdout);
         let res = txt.lines().last().unwrap_or("").to_string();
-        println!("{}: {}", f[0], if o.status.success() { res } else { format!("process died: {:?} {}", o.status, String::from_utf8_lossy(&o.stderr).lines().next().unwrap_or("")) });
+        let err = String::from_utf8_lossy(&o.stderr);
+        let by = err.lines().find(|l| l.starts_with("F ")).map(|l| format!(" alloc@{}", &l[2..])).unwrap_or_default();
+        let hang = if err.lines().any(|l| l.starts_with("H ")) { " hang@" } else { "" };
+        println!("{}: {}{by}{hang}", f[0], if o.status.success() { res } else { format!("process died: {:?}", o.status) });
         n += 1;
     }
     println!("DRIVER c08-probe findings={n}");
